@@ -82,9 +82,9 @@ CHECKS = {
    note="Datagrams the kernel itself discarded on reception (the namespace's UDP InErrors counters, read around every life) were never received and are not demanded. Datagrams larger than the read buffer are outside the statement.",
    tech="trace validation against TrUdp.tla (TLA+ trace specification checked by TLC)"),
  "C18": dict(cat="fault_enumeration", ref="DESIGN.md §4 C18",
-   text="One system-call fault per engine life is injected with strace into the event-loop thread (pinned with WithLockOSThread): {read, write, writev, epoll_ctl (call index raised until ADD, MOD and DEL have each been failed), epoll_wait, accept4} x errno x call index x {LT, ET}, while bystander connections carry checked traffic and a probe connection tests liveness afterwards. The recorded executions are validated by TrLife.tla (the failing connection is closed exactly once with an error, a write that reports an error has closed the connection, retryable errnos leave no trace, engine keeps running), TrIn/TrOut (bystanders' streams intact) and TrFd (descriptor released once).",
+   text="One system-call fault per engine life is injected with strace into the event-loop thread (pinned with WithLockOSThread): {read, write, writev, epoll_ctl (call index raised until ADD, MOD and DEL have each been failed), epoll_wait, accept4} x errno x call index x {LT, ET}, while bystander connections carry checked traffic and a probe connection tests liveness afterwards. The recorded executions are validated by TrLife.tla (the failing connection is closed exactly once with an error, a write that reports an error has closed the connection, retryable errnos leave no trace, engine keeps running), TrFault.tla (a hard fault on an open connection's call owes it an OnClose with that error), TrIn/TrOut (bystanders' streams intact) and TrFd (descriptor released once).",
    note="Where each fault landed is read from strace's own log; a fault that landed on a write to the poller's eventfd is outside the property and that life is discarded. close(2), fatal accept errnos and non-EINTR epoll_wait errors are not injected (fatal by design / would fake leaks). Needs ptrace permission for strace; without it the check reports a machinery failure, not a verdict.",
-   tech="strace fault enumeration on the real engine; trace validation against TrLife / TrIn / TrOut / TrFd (TLA+ trace specifications checked by TLC)"),
+   tech="strace fault enumeration on the real engine; trace validation against TrLife / TrFault / TrIn / TrOut / TrFd (TLA+ trace specifications checked by TLC)"),
 }
 NOT_YET = {}
 for i in range(1, 21):
